@@ -693,3 +693,47 @@ func (pv *provider) checkAddsEach(r *Report, addM *ssa.Function) {
 	}
 	r.Check(okAdd, "C20.R3", key, what, w.fnPos(F), "listed members are not added")
 }
+
+// checkHandshakesOut: a handshake announces this node: it carries the cluster's own member info and is sent with the
+// provider's own PID as sender — that is where the peer sends its member list back to. The provider's PID is its
+// Context's PID, or (in the discovery goroutine, which has no Context) the PID built from the cluster's address and
+// "provider/"+its own id.
+func checkHandshakesOut(w *World, r *Report, rule string) {
+	sws := w.Method("actor", "Engine", "SendWithSender")
+	hsT := w.Named("cluster", "Handshake")
+	n := 0
+	for _, fn := range w.Funcs {
+		if !w.isLib(fn) || fnPkgPath(fn) != modPath+"/cluster" {
+			continue
+		}
+		g := w.FGI(fn)
+		for i, in := range g.ins {
+			c, ok := in.(*ssa.Call)
+			if !ok || (g.inl != nil && g.inl[i]) || c.Call.StaticCallee() != sws || len(c.Call.Args) != 4 {
+				continue
+			}
+			nt, fs, lit := w.structLit(c.Call.Args[2])
+			if !lit || !sameNamed(nt, hsT) {
+				continue
+			}
+			n++
+			key := fmt.Sprintf("%s:handshake-out", fname(rootFn(fn)))
+			mem, snd := "", w.pathOf(c.Call.Args[3])
+			if fs["Member"] != nil {
+				mem = w.pathOf(fs["Member"])
+			}
+			okM := strings.HasPrefix(mem, "call:(*cluster.Cluster).Member(") && strings.HasSuffix(mem, ".cluster)")
+			okS := strings.HasPrefix(snd, "call:(*actor.Context).PID(") || strings.HasSuffix(snd, ".pid")
+			if !okS && strings.HasPrefix(snd, "call:actor.NewPID(") {
+				args := splitTop(snd[len("call:actor.NewPID("):len(snd)-1], ',')
+				if len(args) == 2 && strings.HasSuffix(args[0], ".cluster.agentPID.Address") &&
+					strings.HasPrefix(args[1], "(K:\"provider/\"+call:(*cluster.Cluster).ID(") && strings.HasSuffix(args[1], ".cluster))") {
+					okS = true
+				}
+			}
+			r.Check(okM && okS, rule, key, "an outgoing handshake carries the cluster's own member info and names the provider itself as sender", w.pos(c.Pos()),
+				"handshake with Member="+mem+" and sender "+snd+": the peer adds somebody else, or answers with its member list to a PID that does not exist (the list is a dead letter and this node never learns the members the peer knows)")
+		}
+	}
+	r.Check(n > 0, rule, "SelfManaged:handshakes-out", "the provider sends handshakes", "-", "no SendWithSender(…, &Handshake{…}, …) found in package cluster")
+}
